@@ -92,6 +92,54 @@ def rule_state(c, prog):
                 e = core.strip(x["e"])
                 if e.get("k") == "Call" and e["f"].get("def") == "core::result::Result::Ok":
                     bad_ret.append(core.loc(x))
+    if outer:
+        body = core.strip(outer[0][2])
+        stmts = body["b"]["stmts"] if body.get("k") == "Block" else []
+        # (i) SharedString values are discovered for *every* instance: the discovery precedes any `continue`
+        # (the `already visited` skip is per class, a second instance's value would otherwise never be registered)
+
+        def has_cont(n):
+            for x in core.walk(n, into_closures=False):
+                if x.get("k") == "Continue":
+                    return True
+            return False
+
+        def tests_sstr(n):
+            for x in core.walk(n, into_closures=False):
+                if x.get("k") == "LetExpr" and "Variant::SharedString" in core.pat_str(x["pat"]):
+                    return True
+                if x.get("k") == "Match" and x.get("src") == "Normal" and any("Variant::SharedString" in core.pat_str(a["pat"]) for a in x["arms"]):
+                    return True
+            return False
+        idx_s = next((i for i, st in enumerate(stmts) if tests_sstr(st.get("e") or st.get("init") or {})), None)
+        idx_c = next((i for i, st in enumerate(stmts) if has_cont(st.get("e") or st.get("init") or {})), None)
+        if idx_s is not None and (idx_c is None or idx_s < idx_c):
+            c.ok(R, "sstr:discovered-for-every-instance")
+        else:
+            c.violation(R, "sstr|after-skip", "collect_type_info discovers SharedString values only after the `property already visited for this class` skip: the value of a second instance of the same class is never registered (its SSTR index is missing; serialize_properties panics or writes the wrong string). Each instance alone serializes, the pair does not", fn.sp, instance="sstr:discovered-for-every-instance")
+        # (ii) no mutable local is carried from one property to the next (a value computed for one property must not
+        # leak into the next): everything assigned in the loop body is declared in it
+        declared = set()
+        for st in core.walk_lets(body):
+            stack = [st.get("pat")]
+            while stack:
+                x = stack.pop()
+                if isinstance(x, dict):
+                    if x.get("k") == "Binding":
+                        declared.add(x["lid"])
+                    stack.extend(v for v in x.values() if isinstance(v, (dict, list)))
+                elif isinstance(x, list):
+                    stack.extend(x)
+        carried = []
+        for x in core.walk(body, into_closures=False):
+            if x.get("k") in ("Assign", "AssignOp"):
+                l = core.strip(x["l"])
+                if l.get("k") == "Path" and l.get("res") == "local" and l["lid"] not in declared:
+                    carried.append(l.get("name"))
+        if not carried:
+            c.ok(R, "loop:no-carried-locals")
+        else:
+            c.violation(R, "loop|carried|" + ",".join(sorted(set(carried))), f"collect_type_info assigns {sorted(set(carried))} inside the per-property loop although they are declared outside it: what one property set is still there for the next one (e.g. a migration found for BrickColor sticks to the property visited after it, depending on map iteration order)", fn.sp, instance="loop:no-carried-locals")
     if outer and not bad_ret:
         c.ok(R, "loop:no-early-success-return")
     else:
